@@ -53,6 +53,10 @@ func (p *plan) String() string {
 			parts = append(parts, "ZipEdit("+o.X+"."+o.Y+","+o.Z+")")
 		case "WhitespaceOnly":
 			parts = append(parts, "WhitespaceOnly("+o.X+")")
+		case "Literal":
+			parts = append(parts, "Literal("+o.X+")")
+		case "ValueLiteral":
+			parts = append(parts, "ValueLiteral(#"+strconv.Itoa(o.I)+","+o.X+")")
 		default:
 			parts = append(parts, o.Op)
 		}
@@ -111,6 +115,30 @@ func applyOp(d []byte, o mop) []byte {
 		return append(out, d[c:]...)
 	case "Empty":
 		return []byte{}
+	case "Literal":
+		return []byte(map[string]string{"null": "null", "array": "[]", "object": "{}", "quote": "\"", "zero": "0", "true": "true",
+			"tilde": "~", "lt": "<", "dashes": "---\n", "string": "\"x\""}[o.X])
+	case "ValueLiteral":
+		// the value of the n-th line that has a key separator becomes a degenerate literal
+		lit := map[string]string{"quote": "\"", "apos": "'", "null": "null", "empty": ""}[o.X]
+		lines := bytes.SplitAfter(d, []byte("\n"))
+		k := 0
+		for li, ln := range lines {
+			sep := bytes.IndexAny(ln, "=:")
+			if sep <= 0 {
+				continue
+			}
+			if k == o.I {
+				nl := ""
+				if bytes.HasSuffix(ln, []byte("\n")) {
+					nl = "\n"
+				}
+				lines[li] = append(append(append([]byte(nil), ln[:sep+1]...), []byte(lit)...), []byte(nl)...)
+				return bytes.Join(lines, nil)
+			}
+			k++
+		}
+		return d
 	case "WhitespaceOnly":
 		switch o.X {
 		case "spaces":
